@@ -29,6 +29,8 @@ def main():
     wt = f"{base}/repo"
     env = dict(os.environ, PYTHONPATH=base)
     name = os.path.basename(mdir.rstrip("/"))
+    if name.startswith(pid + "-"):
+        name = name[len(pid) + 1:]
     res = {"property": pid, "mutant": name, "checks": {}}
     sh("git checkout -q -- .", cwd=wt)
     rc0, out0 = sh(f"/venv/bin/python {mdir}/demo.py", cwd=base, env=env, timeout=300)
